@@ -111,8 +111,20 @@ pub fn gen_query(rng: &mut StdRng, profile: &str) -> J {
         }
     } else if rng.random_range(0..4) == 0 { json!({"op": "true"}) } else { gen_pred(rng, &nvars, &evars, 2, allow_isnull) };
     let mut q = json!({"path": path, "where": wher, "distinct": false, "order": [], "skip": 0, "limit": -1});
+    // OPTIONAL MATCH continuing from a node of the main pattern (profile "opt" always, "mixed" sometimes)
+    let with_opt = profile == "opt" || (profile == "mixed" && rng.random_range(0..6) == 0);
+    if with_opt {
+        let from = nvars[rng.random_range(0..nvars.len())].clone();
+        let dir = ["out", "out", "in", "both"][rng.random_range(0..4)];
+        q["optfrom"] = json!(from);
+        q["opt"] = json!([{"var": "oe", "types": match rng.random_range(0..4) { 0 => vec!["T"], 1 => vec!["U"], _ => vec![] }, "dir": dir},
+                          {"var": "ob", "labels": match rng.random_range(0..5) { 0 => vec!["A"], 1 => vec!["B"], _ => vec![] }}]);
+    }
     let prop = |rng: &mut StdRng, vars: &[String]| -> J { json!({"op": "prop", "var": vars[rng.random_range(0..vars.len())], "key": if rng.random_bool(0.6) { "k" } else { "s" }}) };
-    let mode = match profile { "order" => 4, "agg" => 3, "distinct" => 2, _ => rng.random_range(0..10) };
+    let mode = match profile { "order" => 4, "agg" => 3, "distinct" => 2, "opt" => [0, 2, 3][rng.random_range(0..3)], _ => rng.random_range(0..10) };
+    let mut nvars = nvars;
+    if with_opt && mode != 4 { nvars.push("ob".to_string()); }
+    let nvars = nvars;
     let ret: Vec<J> = match mode {
         0..=1 | 5..=7 => {
             let mut r: Vec<J> = nvars.iter().map(|v| json!({"e": {"op": "id", "var": v}})).collect();
@@ -185,6 +197,14 @@ pub fn render(q: &J, lang: &str) -> Option<String> {
             s += &match p["dir"].as_str()? { "out" => format!("-{body}->"), "in" => format!("<-{body}-"), _ => format!("-{body}-") };
         }
     }
+    if let Some(opt) = q.get("opt").and_then(|o| o.as_array()) {
+        let (ep, np) = (&opt[0], &opt[1]);
+        let t = ep["types"].as_array()?.first().map(|t| format!(":{}", t.as_str().unwrap())).unwrap_or_default();
+        let body = format!("[{}{}]", ep["var"].as_str()?, t);
+        let labs: String = np["labels"].as_array()?.iter().map(|l| format!(":{}", l.as_str().unwrap())).collect();
+        let arrow = match ep["dir"].as_str()? { "out" => format!("-{body}->"), "in" => format!("<-{body}-"), _ => format!("-{body}-") };
+        s += &format!(" OPTIONAL MATCH ({}){}({}{})", q["optfrom"].as_str()?, arrow, np["var"].as_str()?, labs);
+    }
     if q["where"]["op"] != "true" { s += &format!(" WHERE {}", r_expr(&q["where"])?); }
     s += if q["distinct"] == true { " RETURN DISTINCT " } else { " RETURN " };
     let items: Option<Vec<String>> = q["ret"].as_array()?.iter().map(|it| {
@@ -211,7 +231,7 @@ pub fn render_gremlin(q: &J, variant: usize) -> Option<(J, String)> {
         }
     }
     let mut cmps = vec![];
-    if !conj(&q["where"], &mut cmps) { return None; }
+    if q.get("opt").is_some() || !conj(&q["where"], &mut cmps) { return None; }
     let has = |var: &str| -> Option<String> {
         let mut s = String::new();
         for c in cmps.iter().filter(|c| c["a"]["var"] == var) {
